@@ -18,7 +18,7 @@ RULE = ("cases from rng(seed, 17, 0, i): object category = i mod 6 of pose / ver
         "size, other id, other edge class, other estimate kind/size, other information shape, shapes that differ but broadcast to an all-zero difference, instance of a subclass, one vertex's pose swapped after construction for its equal-size sibling class (also in graphs of 64-130 vertices), extra element, swapped order; graphs whose vertices span scales 1e-3..1e4); tol in 10^U(-12,-2); both directions evaluated. "
         "distinct = fingerprint(x, mutation); non-trivial = mutation other than copy with a decided expectation.")
 REQ = ["eval:equals-never-raises", "eval:equals-expected-true", "eval:equals-expected-false", "cat:pose", "cat:vertex", "cat:odo", "cat:lm", "cat:custom", "cat:graph", "mut:copy",
-       "mut:perturb_below", "mut:perturb_above", "mut:class_same_size", "mut:class_other_size", "mut:id", "mut:edge_class", "mut:estimate_size", "mut:broadcastable_shape", "mut:vertex_class_swapped", "class:graph_64+_vertices", "mut:information_shape",
+       "mut:perturb_below", "mut:perturb_above", "mut:class_same_size", "mut:class_other_size", "mut:id", "mut:edge_class", "mut:estimate_size", "mut:broadcastable_shape", "mut:vertex_class_swapped", "mut:views_into_one_table", "class:compared_with_debug_logging_enabled", "mut:loaded_vs_built_from_its_lists", "class:graph_64+_vertices", "mut:information_shape",
        "mut:graph_extra_element", "mut:graph_order", "mut:offset", "mut:offset_id", "mut:edge_subclass", "class:graph_multi_scale", "class:default_tol_argument_omitted", "mut:ids_container", "mut:pose_subclass", "class:graphs_used_and_restored_before_comparison"]
 PLAN = {
     "quick": {"cases": 12000, "soft_s": 60, "min_nontrivial": 3000, "require": REQ},
@@ -185,10 +185,23 @@ def build_obj(cat, spec):
     return M.build_edge(spec)
 
 
+class _Plain:
+    def __enter__(self):
+        return self
+
+    def __exit__(self, *a):
+        return False
+
+
 def call_both(ctx, x, y, tol, expect_xy, expect_yx, feats, case):
+    # a fifth of the comparisons run with the library's loggers at DEBUG (chosen from the tolerance's digits, so a replay makes the same choice)
+    debug = int(repr(float(tol))[-1], 16) % 5 == 0 if repr(float(tol))[-1] in "0123456789" else False
+    if debug:
+        ctx.count("class:compared_with_debug_logging_enabled")
+        feats = dict(feats, debug_logging=True)
     for a, b, exp, direction in ((x, y, expect_xy, "x.equals(y)"), (y, x, expect_yx, "y.equals(x)")):
         try:
-            with np.errstate(all="ignore"):
+            with np.errstate(all="ignore"), (M.DebugLogging() if debug else _Plain()):
                 res = a.equals(b) if tol == 1e-6 else a.equals(b, tol)  # the documented default is 1e-6
         except Exception as ex:
             ctx.check("equals-never-raises", False, dict(feats, exception=type(ex).__name__, direction=direction), {"message": str(ex)[:200]}, case)
@@ -213,6 +226,8 @@ def elem_case(ctx, cat, rng, tol):
         spec = edge_spec(rng, cat, k)
     x = build_obj(cat, spec)
     muts = ["copy", "perturb", "perturb", "perturb", "class_same_size", "class_other_size", "pose_subclass"]
+    if k in ("r2", "r3") and cat in ("pose", "vertex"):
+        muts += ["views_into_one_table"]
     if cat != "pose":
         muts += ["id"]
     if cat in ("odo", "lm", "custom"):
@@ -296,6 +311,9 @@ def elem_case(ctx, cat, rng, tol):
         s2["est"] = list(spec["est"]) + [0.0] if rng.random() < 0.5 else [float(x) for x in rng.normal(size=len(spec["est"]) + 2)]
         s2["est_kind"] = "array"
         exp_xy = exp_yx = False
+    elif mut == "views_into_one_table":
+        # the two poses are columns of one coordinate table (PoseR2(xy[:, i]) wraps the array without copying): different numbers in memory that interleaves
+        exp_xy = exp_yx = False
     elif mut == "broadcastable_shape":
         # arrays of different shapes whose element-wise difference would nevertheless be all zero under numpy broadcasting
         exp_xy = exp_yx = False
@@ -325,6 +343,20 @@ def elem_case(ctx, cat, rng, tol):
                 y.pose = as_subclass_pose(y.pose)
             else:
                 y.estimate = as_subclass_pose(y.estimate)
+        if mut == "views_into_one_table":
+            n = 2 if k == "r2" else 3
+            ncol = int(rng.integers(2, 6))
+            table = np.array(rng.normal(size=(n, ncol)) * 5.0)
+            ia, ib = [int(t) for t in rng.choice(ncol, 2, replace=False)]
+            table[:, ib] = table[:, ia] + (1.0 + rng.random(n))  # clearly different numbers
+            pa, pb = M.CLS[k](table[:, ia]), M.CLS[k](table[:, ib])
+            if not np.shares_memory(np.asarray(pa), table):
+                ctx.count("views_into_one_table:constructor_copied")
+            if cat == "pose":
+                x, y = pa, pb
+            else:
+                x, y = M.Vertex(spec["id"], pa), M.Vertex(spec["id"], pb)
+            s2 = dict(spec, table=table.tolist(), columns=[ia, ib])
         if mut == "broadcastable_shape":
             c = float(rng.choice([0.0, 1.0, float(rng.normal())]))
             n = len(spec["info"])
@@ -360,7 +392,45 @@ def elem_case(ctx, cat, rng, tol):
     ctx.sample({"category": cat, "mutation": mut, "tol": tol, "expected": [exp_xy, exp_yx], "x": spec if cat != "graph" else None}, cap=3)
 
 
+def loaded_vs_built_case(ctx, rng, tol):
+    """A graph loaded from a .g2o file (which registers its PARAMS_* lines) against a graph built in code from copies of the loaded graph's own edge and
+    vertex lists: every compared element is a copy, so the graphs are equal in both directions."""
+    import copy
+    import os
+    import shutil
+    import tempfile
+
+    from . import c13
+
+    lspec, fam, ext = c13.make_spec(rng, ctx)
+    if ext:
+        ctx.skip("extreme values drawn")
+        return
+    d0 = tempfile.mkdtemp(prefix="c17-", dir=os.environ.get("VF_SCRATCH"))
+    try:
+        pth = os.path.join(d0, "g.g2o")
+        M.build(lspec).to_g2o(pth)
+        x = M.Graph.from_g2o(pth)
+    except Exception:
+        ctx.skip("graph could not be written / loaded")
+        return
+    finally:
+        shutil.rmtree(d0, ignore_errors=True)
+    how = str(rng.choice(["deep copies of the lists", "the same objects"]))
+    if how.startswith("deep"):
+        ee, vv = copy.deepcopy((list(x._edges), list(x._vertices)))
+    else:
+        ee, vv = list(x._edges), list(x._vertices)
+    y = M.Graph(ee, vv)
+    feats = {"category": "graph", "mutation": "loaded_vs_built_from_its_lists", "how": how, "file_has_parameters": bool(lspec.get("params"))}
+    call_both(ctx, x, y, tol, True, True, feats, {"category": "graph", "file_graph": lspec, "tol": tol})
+    ctx.count("mut:loaded_vs_built_from_its_lists")
+    ctx.nontrivial(gen.fingerprint({"l": lspec, "how": how}))
+
+
 def graph_case(ctx, rng, tol):
+    if rng.random() < 0.06:
+        return loaded_vs_built_case(ctx, rng, tol)
     big = bool(rng.random() < 0.08)
     if big:
         spec, _ = gen.cluster_graph(rng, kinds=[str(rng.choice(["se2", "r3", "se3", "r2"]))], size=(64, 130), custom=False, weird_ids=False)
